@@ -9,7 +9,7 @@ import random
 from . import core, tlc
 from . import master_common as mc
 
-OWN = {'C09': ('C09.',), 'C10': ('C10.',), 'C11': ('C11.',)}
+OWN = {'C09': ('C09.',), 'C10': ('C10.',), 'C11': ('C11.',), 'C08': ('C08.',)}
 INV = {'C09': ['InvC09'], 'C10': ['InvC10dup', 'InvNoAssert', 'InvC09'], 'C11': ['InvC11']}
 RULE = {
     'C09': 'a history counts when a completed cycle or start-up publishes at least one placed instance; distinct = distinct ZooKeeper-level histories',
